@@ -15,6 +15,16 @@ using namespace bpp;
 #include <iostream>
 using namespace std;
 
+#ifdef BIOPP_BPP_CORE_VERIF
+// Verification hook (guarded, add-only): a test harness may define bpp_verif_param_audit() to
+// inspect a parameter after every member that writes its value or its constraint.
+// The symbol is weak: when no harness defines it, nothing is called.
+extern "C" void bpp_verif_param_audit(const bpp::Parameter* parameter, const char* site) __attribute__((weak));
+#define BPP_VERIF_PARAM_AUDIT(site) do { if (bpp_verif_param_audit) bpp_verif_param_audit(this, site); } while (0)
+#else
+#define BPP_VERIF_PARAM_AUDIT(site) do {} while (0)
+#endif
+
 /******************************************************************************/
 
 ParameterEvent::ParameterEvent(Parameter* parameter) : parameter_(parameter) {}
@@ -29,6 +39,7 @@ Parameter::Parameter(const std::string& name, double value, std::shared_ptr<Cons
   if (constraint_ && !constraint_->isCorrect(value_))
     throw ConstraintException("Parameter::Parameter", this, value_);
   setPrecision(precision);
+  BPP_VERIF_PARAM_AUDIT("Parameter::Parameter");
 }
 
 Parameter::Parameter(const Parameter& p) :
@@ -37,7 +48,9 @@ Parameter::Parameter(const Parameter& p) :
   precision_(p.precision_),
   constraint_(p.constraint_),
   listeners_(p.listeners_)
-{}
+{
+  BPP_VERIF_PARAM_AUDIT("Parameter::Parameter(copy)");
+}
 
 Parameter& Parameter::operator=(const Parameter& p)
 {
@@ -46,6 +59,7 @@ Parameter& Parameter::operator=(const Parameter& p)
   precision_      = p.precision_;
   constraint_     = p.constraint_;
   listeners_      = p.listeners_;
+  BPP_VERIF_PARAM_AUDIT("Parameter::operator=");
   return *this;
 }
 
@@ -65,6 +79,7 @@ void Parameter::setValue(double value)
     ParameterEvent event(this);
     fireParameterValueChanged(event);
   }
+  BPP_VERIF_PARAM_AUDIT("Parameter::setValue");
 }
 
 /** Precision: ********************************************************************/
@@ -82,6 +97,7 @@ void Parameter::setConstraint(std::shared_ptr<ConstraintInterface> constraint)
     throw ConstraintException("Parameter::setConstraint", this, value_);
 
   constraint_ = constraint;
+  BPP_VERIF_PARAM_AUDIT("Parameter::setConstraint");
 }
 
 
